@@ -30,7 +30,7 @@ Lemma gen_chauth_index i n : chauth_index_invalid i n = ((i <? 1) || (n <? i)).
 Proof. reflexivity. Qed.
 Lemma gen_chauth_revoked b : chauth_reject_revoked b = b.
 Proof. reflexivity. Qed.
-Lemma gen_revoke_nokey n i : revoke_index_nokey n i = (n <? i).
+Lemma gen_revoke_nokey i n : revoke_index_nokey i n = ((i <? 1) || (n <? i)).
 Proof. reflexivity. Qed.
 Lemma gen_findpk e a : findpk_match e a = (e && a).
 Proof. reflexivity. Qed.
@@ -578,9 +578,9 @@ Qed.
 Lemma revoke_by_index_ext l i l' : revoke_by_index l i = Some l' ->
   keys_ext l l' /\ map pk_key l' = map pk_key l.
 Proof.
-  unfold revoke_by_index. destruct (revoke_index_nokey (len l) i); [discriminate|].
-  destruct (i =? 0); [discriminate|].
-  destruct (nth_error l (N.to_nat (i - 1))) as [p|] eqn:E; [|discriminate].
+  unfold revoke_by_index. destruct (revoke_index_nokey i (len l)); [discriminate|].
+  destruct (len l <=? u32 (i + 4294967295)); [discriminate|].
+  destruct (nth_error l (N.to_nat (u32 (i + 4294967295)))) as [p|] eqn:E; [|discriminate].
   destruct (pk_revoked p); [discriminate|]. intro H; inversion H; subst. split.
   - eapply keys_ext_upd_nth; eauto.
   - eapply upd_nth_map_key; eauto.
@@ -676,3 +676,166 @@ Section StepKeys.
              end.
   Qed.
 End StepKeys.
+
+Section Reachable.
+  Variables (id_ok id_valid : id -> bool) (addr_of : key -> addr).
+  Notation step := (step id_ok id_valid addr_of).
+  Notation step_ev := (step_ev id_ok id_valid addr_of).
+  Notation run := (run id_ok id_valid addr_of).
+  Notation trace := (trace id_ok id_valid addr_of).
+
+  Lemma wf_revoked_rec : wf_rec revoked_rec.
+  Proof. split; [right; right; reflexivity|constructor]. Qed.
+
+  Lemma inv_step s sg o s' : inv s -> step s sg o = Some s' -> inv s'.
+  Proof.
+    intros Hi Hs j. destruct (N.eq_dec j (target o)) as [->|Hd].
+    - destruct (step_record _ _ _ _ _ _ _ Hs) as [Hr|[Hf [_ Hn]]].
+      + rewrite Hr. apply wf_revoked_rec.
+      + split; [left; exact Hf|apply Hn; apply Hi].
+    - rewrite (step_frame _ _ _ _ _ _ _ _ Hs Hd). apply Hi.
+  Qed.
+
+  Lemma inv_step_ev s e : inv s -> inv (step_ev s e).
+  Proof.
+    intro Hi. unfold OntId.step_ev.
+    destruct (step s (e_signers e) (e_op e)) eqn:E; [eapply inv_step; eauto|exact Hi].
+  Qed.
+
+  Lemma inv_run h : forall s, inv s -> inv (run s h).
+  Proof. induction h as [|e h IH]; intros s Hi; [exact Hi|]. apply IH. apply inv_step_ev. exact Hi. Qed.
+
+  Lemma inv_reachable h : inv (run init_state h).
+  Proof. apply inv_run. apply inv_init. Qed.
+
+  Lemma inv_trace h s pre e post : inv s -> In (pre, e, post) (trace s h) -> inv pre.
+  Proof.
+    intros Hi Hin. destruct (trace_prefix _ _ _ _ _ _ _ _ Hin) as [h1 [h2 [_ ->]]].
+    apply inv_run. exact Hi.
+  Qed.
+
+  (** In a well-formed state an identity that is not registered (never was, or revoked) has no
+      keys, no controller, no recovery and no attributes; in particular it witnesses nothing. *)
+  Lemma inv_not_registered s j :
+    inv s -> ~ registered s j -> s j = empty_rec \/ s j = revoked_rec.
+  Proof. intros Hi Hn. destruct (Hi j) as [[H|H] _]; [contradiction|exact H]. Qed.
+
+  Lemma inv_no_witness s sg j :
+    inv s -> ~ registered s j -> ~ key_witness addr_of s sg j.
+  Proof.
+    intros Hi Hn [n [p [Hp _]]].
+    destruct (inv_not_registered _ _ Hi Hn) as [E|E]; rewrite E in Hp; destruct n; discriminate.
+  Qed.
+
+  Lemma revoked_not_registered s j : id_revoked s j -> ~ registered s j.
+  Proof.
+    unfold id_revoked, registered. intros H1 H2. rewrite H1 in H2.
+    destruct gen_flags_distinct as [_ [B _]]. congruence.
+  Qed.
+
+  (** ** key indices are stable and revocation of a key is permanent, along any history *)
+  Lemma step_ev_keys s e i :
+    id_revoked (step_ev s e) i \/ keys_ext (r_keys (s i)) (r_keys (step_ev s e i)).
+  Proof.
+    unfold OntId.step_ev. destruct (step s (e_signers e) (e_op e)) as [s'|] eqn:E;
+      [|right; apply keys_ext_refl].
+    destruct (N.eq_dec i (target (e_op e))) as [->|Hd].
+    - destruct (step_record _ _ _ _ _ _ _ E) as [Hr|[_ [Hk _]]].
+      + left. unfold id_revoked. rewrite Hr. reflexivity.
+      + right. exact Hk.
+    - right. rewrite (step_frame _ _ _ _ _ _ _ _ E Hd). apply keys_ext_refl.
+  Qed.
+
+  Lemma run_keys h : forall s i,
+    id_revoked (run s h) i \/ keys_ext (r_keys (s i)) (r_keys (run s h i)).
+  Proof.
+    induction h as [|e h IH]; intros s i; [right; apply keys_ext_refl|].
+    rewrite run_cons. destruct (step_ev_keys s e i) as [Hr|Hk].
+    - left. unfold id_revoked. rewrite revoked_run; exact Hr.
+    - destruct (IH (step_ev s e) i) as [Hr|Hk']; [left; exact Hr|right].
+      eapply keys_ext_trans; eauto.
+  Qed.
+
+  Lemma nodup_key_index l m n q q' :
+    NoDup (map pk_key l) -> nth_error l m = Some q -> nth_error l n = Some q' ->
+    pk_key q = pk_key q' -> q = q'.
+  Proof.
+    intros Hnd Hm Hn Hk.
+    assert (E : m = n).
+    { apply (proj1 (NoDup_nth_error (map pk_key l)) Hnd).
+      - rewrite map_length. apply nth_error_Some. congruence.
+      - rewrite (map_nth_error pk_key _ _ Hm), (map_nth_error pk_key _ _ Hn), Hk. reflexivity. }
+    subst. congruence.
+  Qed.
+
+  (** Once a key of an identity is revoked, no entry of that identity's key list with these key
+      bytes is ever live again. *)
+  Lemma revoked_key_for_ever s i n p h m q :
+    inv s -> nth_error (r_keys (s i)) n = Some p -> pk_revoked p = true ->
+    nth_error (r_keys (run s h i)) m = Some q -> pk_key q = pk_key p -> pk_revoked q = true.
+  Proof.
+    intros Hi Hn Hr Hm Hk. pose proof (inv_run h s Hi) as Hi'.
+    destruct (run_keys h s i) as [Hrev|Hext].
+    - exfalso. destruct (inv_not_registered _ _ Hi' (revoked_not_registered _ _ Hrev)) as [E|E];
+        rewrite E in Hm; destruct m; discriminate.
+    - destruct (Hext _ _ Hn) as [p' [Hn' [Hk' Hr']]].
+      assert (q = p') by (eapply nodup_key_index; [apply Hi'| | |]; eauto; congruence).
+      subst. auto.
+  Qed.
+End Reachable.
+
+(** * The literal reading: at least one witnessing key behind every accepted change *)
+Section Literal.
+  Variables (id_ok id_valid : id -> bool) (addr_of : key -> addr).
+
+  Lemma group_witnessed_has_witness s sg g :
+    group_witnessed addr_of s sg g -> vacuous g = false -> group_has_witness addr_of s sg g.
+  Proof.
+    unfold group_witnessed, group_has_witness. intros H Hv.
+    destruct (group_sat_leaf _ _ H Hv) as [j [Hj Pj]].
+    exists j. split; [exact Hj|apply key_witness_b_iff; exact Pj].
+  Qed.
+
+  Lemma holds_has_witness s sg i a :
+    holds id_valid addr_of s sg i a ->
+    (forall g, authority_group id_valid s i a = Some g -> vacuous g = false) ->
+    has_witness id_valid addr_of s sg i a.
+  Proof.
+    destruct a; cbn [holds has_witness authority_group]; intros H Hv.
+    - apply H.
+    - apply H.
+    - apply H.
+    - destruct H as [_ [c [Hc Hw]]]. rewrite Hc in *. destruct c as [j|g]; cbn in Hw; [exact Hw|].
+      apply group_witnessed_has_witness; auto.
+    - destruct H as [_ [g [Hg Hw]]]. rewrite Hg in *. apply group_witnessed_has_witness; auto.
+    - apply H.
+    - destruct H as [_ H]. destruct (id_valid (ca_id c)); [exact H|].
+      destruct H as [g [Hg Hw]]. rewrite Hg in *. apply group_witnessed_has_witness; auto.
+  Qed.
+
+  (** a vacuous group is witnessed by the empty signer set *)
+  Lemma vacuous_witnessed s g : vacuous g = true -> group_witnessed addr_of s [] g.
+  Proof.
+    unfold vacuous, group_witnessed. apply group_sat_mono. discriminate.
+  Qed.
+
+  (** ** a revoked (or never registered) identity carries no authority *)
+  Lemma dead_controller_refuses s sg o j :
+    inv s -> r_ctrl (s (target o)) = Some (CSingle j) -> ~ registered s j ->
+    required o = AController -> step id_ok id_valid addr_of s sg o = None.
+  Proof.
+    intros Hi Hc Hj Hr. destruct (step id_ok id_valid addr_of s sg o) eqn:E; [|reflexivity].
+    exfalso. pose proof (step_authorized _ _ _ _ _ _ _ E) as Ha.
+    unfold authorized in Ha. rewrite Hr in Ha. destruct Ha as [_ [c [Hc' Hw]]].
+    rewrite Hc in Hc'. inversion Hc'; subst. cbn in Hw.
+    eapply inv_no_witness; eauto.
+  Qed.
+
+  Lemma dead_group_not_witnessed s sg g :
+    inv s -> (forall j, In j (leaves g) -> ~ registered s j) -> vacuous g = false ->
+    ~ group_witnessed addr_of s sg g.
+  Proof.
+    intros Hi Hl Hv Hw. destruct (group_witnessed_has_witness _ _ _ Hw Hv) as [j [Hj Hk]].
+    eapply inv_no_witness; eauto.
+  Qed.
+End Literal.
